@@ -73,6 +73,15 @@ impl<T> VecDeque<T> {
     { unimplemented!() }
 
     #[verifier::external_body]
+    pub fn push_front(&mut self, t: T) ensures final(self)@ == seq![t] + old(self)@ { unimplemented!() }
+
+    #[verifier::external_body]
+    pub fn pop_back(&mut self) -> (r: Option<T>)
+        ensures old(self)@.len() == 0 ==> r.is_none() && final(self)@ == old(self)@,
+                old(self)@.len() > 0 ==> r == Some(old(self)@.last()) && final(self)@ == old(self)@.drop_last(),
+    { unimplemented!() }
+
+    #[verifier::external_body]
     pub fn clear(&mut self) ensures final(self)@.len() == 0 { unimplemented!() }
 }
 
